@@ -244,6 +244,14 @@ def main(argv):
         return 0 if ok else 1
     if cmd == 'replay':
         return replay(argv[1])
+    if cmd == 'contracts-on-tests':
+        if not ensure_deps():
+            print('icontract not available')
+            return 2
+        repo = os.environ.get('VERIF_REPO', '/repo')
+        env = dict(worker_env(), PYTHONPATH=VERIF + os.pathsep + repo + os.pathsep + DEPS)
+        r = subprocess.run([PY, '-m', 'pytest', '-q', '-p', 'no:cacheprovider', '-p', 'rv.pytest_contracts', 'test'], cwd=repo, env=env)
+        return r.returncode
     if cmd == 'refcheck':
         from . import refcheck
         return refcheck.main(argv[1:])
